@@ -11,7 +11,8 @@
        integer, empty slice — whichever test the code uses for that field);
      - a multi-valued field (MS kind: slices of sigs / derivations / tap fields, the four
        pre-image maps, xpubs, scalars): s_lists[i] holds (key data, value) pairs in slice
-       order (for the Go maps: the iteration order the runtime happens to pick).
+       order (for the Go maps: in any listing order; they are written in key order).
+   The model follows /repo after the fix: commits c50dc2e 78a1990 1bba04e 221cf1d 08af252.
    ProprietaryData and Unknowns are the two remaining lists of every struct.
    Every guard of the deserialize switches (duplicate tests, length tests, external
    validators) and every emission guard of getKeyPairs is a function of the field kind.
@@ -60,8 +61,11 @@ Definition read_kp (bs : bytes) : kpread :=
       end
   end.
 
-(* proprietaryKey(subType, keyData): the identifier written is always magicPrefix *)
-Definition prop_key (sub : N) (kd : bytes) : bytes := var_slice pset_magic ++ [b8 sub] ++ kd.
+(* proprietaryKeyWithIdentifier(identifier, subType, keyData); an empty identifier means "pset" *)
+Definition prop_key_id (id : bytes) (sub : N) (kd : bytes) : bytes := var_slice id ++ [b8 sub] ++ kd.
+Definition eff_id (id : bytes) : bytes := match id with [] => pset_magic | _ => id end.
+(* proprietaryKey(subType, keyData) *)
+Definition prop_key (sub : N) (kd : bytes) : bytes := prop_key_id pset_magic sub kd.
 
 Record pdata := mk_pd { pd_id : bytes; pd_sub : N; pd_kd : bytes; pd_val : bytes }.
 
@@ -124,13 +128,12 @@ Inductive skind :=
   | KPtr (n : nat)       (* pointer / nil-tested value of n bytes (FallbackLocktime, TxModifiable bit set) *)
   | KModif               (* Global.Modifiable: nil-tested on decode, emitted only when Uint8() > 0 *)
   | KBool                (* *bool: one byte, decoded as (b == 1) *)
-  | KCount               (* InputCount/OutputCount: written by wire.WriteVarInt, read as ONE byte *)
+  | KCount               (* InputCount/OutputCount: wire.WriteVarInt / readCompactSize (exactly one canonical compact size) *)
   | KTx                  (* *transaction.Transaction: Serialize / NewTxFromBuffer (Model/Tx.v) *)
   | KTxOut               (* *transaction.TxOutput: writeTxOut / readTxOut *)
   | KMsgTx               (* *wire.MsgTx: BtcEncode / BtcDecode (oracle) *)
   | KVec                 (* [][]byte: WriteVector / ReadVector; present iff len > 0 *)
-  | KPub                 (* []byte tested with validatePubkey on decode *)
-  | KPanicInt (n : nat). (* uint64 whose emitter writes into a nil slice: PeginValue *)
+  | KPub.                (* []byte tested with validatePubkey on decode *)
 
 Inductive mkind :=
   | MXpub | MScalar | MPartialSig | MBip32 | MMap (n : nat) | MTapScriptSig | MTapLeaf | MTapBip32.
@@ -184,9 +187,15 @@ Definition read_txout (v : bytes) : option bytes :=
       end
   end.
 
-(* make([][]byte, nHashes): runtime.makeslice panics when the length does not fit an int
-   or len*24 exceeds maxAlloc (2^48 on amd64) *)
-Definition makeslice_panics (n : N) : bool := 0x1000000000000 <? n * 24.
+(* big-endian value of a key: for keys of one length, bytes.Compare orders them as these numbers *)
+Definition key_num (e : mentry) : N := be_dec (fst e).
+Fixpoint ins_entry (e : mentry) (l : list mentry) : list mentry :=
+  match l with
+  | [] => [e]
+  | x :: r => if key_num e <? key_num x then e :: x :: r else x :: ins_entry e r
+  end.
+(* sort.Slice(keys, bytes.Compare(...) < 0) over the keys of a Go map (distinct, one length) *)
+Definition sort_entries (l : list mentry) : list mentry := fold_right ins_entry [] l.
 
 Section Codec.
 (* external validators, supplied by the harness from the real libraries; no laws assumed *)
@@ -200,12 +209,14 @@ Variable msgtx_canon : bytes -> option bytes. (* wire.MsgTx BtcDecode then BtcEn
 Definition s_dec (k : skind) (v : bytes) : cres bytes :=
   match k with
   | KBytes l => if len_ok l v then ROk v else RErr
-  | KInt n | KPanicInt n =>
+  | KInt n =>
       if (length v =? n)%nat then ROk (if le_dec v =? 0 then [] else v) else RErr
   | KPtr n => if (length v =? n)%nat then ROk v else RErr
   | KModif => if (length v =? 1)%nat then ROk v else RErr
   | KBool => match v with [b] => ROk [if n8 b =? 1 then x01 else x00] | _ => RErr end
-  | KCount => match v with [b] => ROk (if n8 b =? 0 then [] else le_enc 8 (n8 b)) | _ => RErr end
+  | KCount => match p_varint v with
+              | Some (n, []) => ROk (if n =? 0 then [] else le_enc 8 n)
+              | _ => RErr end
   | KTx => match parse_tx v with Some (t, _) => ROk (ser_full t) | None => RErr end
   | KTxOut => match read_txout v with Some b => ROk b | None => RErr end
   | KMsgTx => match msgtx_canon v with Some c => ROk c | None => RErr end
@@ -218,16 +229,13 @@ Definition s_dec (k : skind) (v : bytes) : cres bytes :=
 (* getKeyPairs: stored value -> wire value *)
 Definition s_emit (k : skind) (b : bytes) : bytes :=
   match k with
-  | KInt n | KPanicInt n => match b with [] => repeat x00 n | _ => b end
+  | KInt n => match b with [] => repeat x00 n | _ => b end
   | KCount => varint (le_dec b)
   | _ => b
   end.
 (* emission guard *)
 Definition s_emits (k : skind) (always : bool) (b : bytes) : bool :=
   always || match k with KModif => negb (le_dec b =? 0) | _ => nonemptyb b end.
-(* binary.LittleEndian.PutUint64(nil slice, v) *)
-Definition s_panics (k : skind) (b : bytes) : bool :=
-  match k with KPanicInt _ => nonemptyb b | _ => false end.
 
 (* ----- multi-valued fields: one decode-switch arm, given the entries already present ----- *)
 Definition m_step (m : mkind) (kd v : bytes) (l : list mentry) : cres (list mentry) :=
@@ -262,7 +270,7 @@ Definition m_step (m : mkind) (kd v : bytes) (l : list mentry) : cres (list ment
           else if (4129 <? length kd)%nat then RErr            (* ControlBlockMaxSize *)
           else if negb (xonly_ok (firstn 32 tl)) then RErr
           else match rev v with
-               | [] => RPanic                                 (* kpair.Value[len(kpair.Value)-1] *)
+               | [] => RErr                                   (* len(kp.Value) == 0 *)
                | lv :: _ =>
                    if N.land (n8 c0) 0xfe =? n8 lv then ROk (l ++ [(kd, v)]) else RErr
                end
@@ -273,7 +281,6 @@ Definition m_step (m : mkind) (kd v : bytes) (l : list mentry) : cres (list ment
         match p_varint v with
         | None => RErr
         | Some (n, r) =>
-            if makeslice_panics n then RPanic else
             match p_list (take 32) n r with
             | None => RErr
             | Some (_, deriv) => if bip32_ok deriv then ROk (l ++ [(kd, v)]) else RErr
@@ -309,7 +316,7 @@ Definition sec_step (tbl : list slot) (s : sec) (k : kpair) : cres sec :=
           | Some (i, sl) => apply_slot i sl (pd_kd pd) (k_val k) s
           | None => ROk (add_prop pd s)
           end
-        else ROk s         (* foreign identifier: silently dropped *)
+        else ROk (add_prop pd s)   (* an entry of another identifier: kept as it is *)
     end
   else
     match find_slot (KStd (k_type k)) tbl with
@@ -337,18 +344,14 @@ Definition parse_section (tbl : list slot) (sanity : sec -> bool) (bs : bytes) :
         (fun sr => if sanity (fst sr) then ROk sr else RErr).
 
 (* ----- emission: getKeyPairs ----- *)
-(* the entries a multi-valued field writes.  Slices are written as they are.  The four pre-image
-   maps are written by `for k, v := range m { ... KeyData: k[:] ... }`: /repo's go.mod says go 1.17,
-   so `k` is ONE array variable shared by all iterations and every key pair built in the loop
-   aliases it; when getKeyPairs returns they all carry the key of the last entry iterated. *)
+(* the entries a multi-valued field writes.  Slices are written as they are; the four pre-image
+   maps are written one key per entry in sorted key order. *)
 Definition m_emit (m : mkind) (l : list mentry) : list mentry :=
   match m with
-  | MMap _ => match rev l with
-              | [] => []
-              | last :: _ => map (fun e => (fst last, snd e)) l
-              end
+  | MMap _ => sort_entries l
   | _ => l
   end.
+
 Definition mk_kp_id (key : keyid) (kd v : bytes) : kpair :=
   match key with
   | KStd t => mk_kpair t kd v
@@ -359,9 +362,7 @@ Definition emit_slot (i : nat) (sl : slot) (s : sec) : cres (list kpair) :=
   match sl_k sl with
   | SS k al =>
       let b := val_at i s in
-      if s_emits k al b then
-        if s_panics k b then RPanic else ROk [mk_kp_id (sl_ekey sl) [] (s_emit k b)]
-      else ROk []
+      if s_emits k al b then ROk [mk_kp_id (sl_ekey sl) [] (s_emit k b)] else ROk []
   | MS m => ROk (map (fun e => mk_kp_id (sl_ekey sl) (fst e) (snd e)) (m_emit m (list_at i s)))
   end.
 
@@ -371,7 +372,8 @@ Fixpoint emit_slots (i : nat) (tbl : list slot) (s : sec) : cres (list kpair) :=
   | sl :: r => cbind (emit_slot i sl s) (fun a => cbind (emit_slots (S i) r s) (fun b => ROk (a ++ b)))
   end.
 
-Definition prop_kp (p : pdata) : kpair := mk_kpair PsetProprietary (prop_key (pd_sub p) (pd_kd p)) (pd_val p).
+Definition prop_kp (p : pdata) : kpair :=
+  mk_kpair PsetProprietary (prop_key_id (eff_id (pd_id p)) (pd_sub p) (pd_kd p)) (pd_val p).
 
 Definition kps_of (tbl : list slot) (s : sec) : cres (list kpair) :=
   cbind (emit_slots 0 tbl s) (fun a => ROk (a ++ map prop_kp (s_props s) ++ s_unks s)).
@@ -419,8 +421,7 @@ Definition input_tbl : list slot := [
   (* 14 PreviousTxIndex *)    sl (kS g_InputPreviousTxIndex) (SS (KInt 4) true);
   (* 15 Sequence *)           sl (kS g_InputSequence) (SS (KInt 4) false);
   (* 16 RequiredTimeLocktime *) sl (kS g_InputRequiredTimeLocktime) (SS (KInt 4) false);
-  (* 17 RequiredHeightLocktime: emitted under the TIME key (input.go:619), decoded under its own *)
-        mk_slot (kS g_InputRequiredTimeLocktime) (kS g_InputRequiredHeightLocktime) (SS (KInt 4) false);
+  (* 17 RequiredHeightLocktime *) sl (kS g_InputRequiredHeightLocktime) (SS (KInt 4) false);
   (* 18 IssuanceValue *)      sl (kP g_InputIssuanceValue) (SS (KInt 8) false);
   (* 19 IssuanceValueCommitment *) sl (kP g_InputIssuanceValueCommitment) (SS (KBytes (LEq 33)) false);
   (* 20 IssuanceValueRangeproof *) sl (kP g_InputIssuanceValueRangeproof) (SS (KBytes LAny) false);
@@ -429,7 +430,7 @@ Definition input_tbl : list slot := [
   (* 23 PeginTxoutProof *)    sl (kP g_InputPeginTxoutProof) (SS (KBytes LAny) false);
   (* 24 PeginGenesisHash *)   sl (kP g_InputPeginGenesis) (SS (KBytes (LEq 32)) false);
   (* 25 PeginClaimScript *)   sl (kP g_InputPeginClaimScript) (SS (KBytes LAny) false);
-  (* 26 PeginValue: the emitter panics (input.go:729) *) sl (kP g_InputPeginValue) (SS (KPanicInt 8) false);
+  (* 26 PeginValue *)         sl (kP g_InputPeginValue) (SS (KInt 8) false);
   (* 27 PeginWitness *)       sl (kP g_InputPeginWitness) (SS KVec false);
   (* 28 IssuanceInflationKeys *) sl (kP g_InputIssuanceInflationKeys) (SS (KInt 8) false);
   (* 29 IssuanceInflationKeysCommitment *) sl (kP g_InputIssuanceInflationKeysCommitment) (SS (KBytes (LEq 33)) false);
@@ -607,8 +608,15 @@ Fixpoint norm_vals (tbl : list slot) (vs : list bytes) : list bytes :=
       (match sl_k sl with SS k al => if s_emits k al b then b else [] | MS _ => b end) :: norm_vals tr vr
   | _, _ => vs
   end.
+(* a map comes back in the order it was written (sorted); an empty Identifier comes back as "pset" *)
+Fixpoint norm_lists (tbl : list slot) (ls : list (list mentry)) : list (list mentry) :=
+  match tbl, ls with
+  | sl :: tr, l :: lr => (match sl_k sl with MS m => m_emit m l | SS _ _ => l end) :: norm_lists tr lr
+  | _, _ => ls
+  end.
+Definition norm_pd (p : pdata) : pdata := mk_pd (eff_id (pd_id p)) (pd_sub p) (pd_kd p) (pd_val p).
 Definition norm_sec (tbl : list slot) (s : sec) : sec :=
-  mk_sec (norm_vals tbl (s_vals s)) (s_lists s) (s_props s) (s_unks s).
+  mk_sec (norm_vals tbl (s_vals s)) (norm_lists tbl (s_lists s)) (map norm_pd (s_props s)) (s_unks s).
 Definition norm_pset (p : pset) : pset :=
   mk_pset (norm_sec global_tbl (p_global p)) (map (norm_sec input_tbl) (p_ins p)) (map (norm_sec output_tbl) (p_outs p)).
 
@@ -617,8 +625,7 @@ Definition cres_bytes_eqb (a : cres bytes) (b : bytes) : bool :=
 
 (* a single-valued field is representable iff its own decoder returns it unchanged *)
 Definition s_wf (k : skind) (al : bool) (b : bytes) : bool :=
-  if s_panics k b then false
-  else if s_emits k al b then cres_bytes_eqb (s_dec k (s_emit k b)) b && (lenN (s_emit k b) <? two64)
+  if s_emits k al b then cres_bytes_eqb (s_dec k (s_emit k b)) b && (lenN (s_emit k b) <? two64)
   else true.
 
 Definition entry_eqb (a b : mentry) : bool := bytes_eqb (fst a) (fst b) && bytes_eqb (snd a) (snd b).
@@ -635,9 +642,10 @@ Fixpoint m_replay (m : mkind) (acc : list mentry) (todo : list mentry) : cres (l
   | [] => ROk acc
   | e :: r => cbind (m_step m (fst e) (snd e) acc) (fun acc' => m_replay m acc' r)
   end.
-(* a multi-valued field is representable iff replaying what it writes through its decoder rebuilds it *)
+(* a multi-valued field is representable iff replaying what it writes through its decoder rebuilds
+   exactly what was written (for a map: its entries in key order) *)
 Definition m_wf (m : mkind) (l : list mentry) : bool :=
-  match m_replay m [] (m_emit m l) with ROk l' => entries_eqb l' l | _ => false end.
+  match m_replay m [] (m_emit m l) with ROk l' => entries_eqb l' (m_emit m l) | _ => false end.
 
 (* framing limits of one key pair: key length guard and 64-bit lengths *)
 Definition frame_ok (k : kpair) : bool :=
@@ -659,9 +667,12 @@ Fixpoint slots_wf (i : nat) (tbl : list slot) (s : sec) : bool :=
   | sl :: r => slot_wf i sl s && slots_wf (S i) r s
   end.
 
+(* a "pset" entry must not carry the subtype of a field (it would be decoded into that field) *)
 Definition prop_wf (tbl : list slot) (p : pdata) : bool :=
-  bytes_eqb (pd_id p) pset_magic && (pd_sub p <? 256) &&
-  (match find_slot (KProp (pd_sub p)) tbl with None => true | Some _ => false end) &&
+  (pd_sub p <? 256) &&
+  (if bytes_eqb (eff_id (pd_id p)) pset_magic
+   then match find_slot (KProp (pd_sub p)) tbl with None => true | Some _ => false end
+   else true) &&
   frame_ok (prop_kp p).
 Definition unk_wf (tbl : list slot) (k : kpair) : bool :=
   negb (k_type k =? PsetProprietary) &&
